@@ -20,6 +20,8 @@ var verifCancelQueries = []string{
 	`-foo`,
 	`abs(foo) > 0`,
 	`sum(foo) / sum(bar)`,
+	`sum(foo + scalar(bar))`,
+	`sum(clamp_max(foo, scalar(bar)))`,
 }
 
 // VerifH14p: whole pipeline with the query context cancelled at the k-th storage
